@@ -394,6 +394,7 @@ func c19Builtin(p *Program, r *Report) {
 	c19TextConversions(p, r)
 	c19ConvertGuarded(p, r)
 	c19ParseResultUsed(p, r)
+	c19InvalidExit(p, r)
 	// R4: structural clauses on SSA
 	lits := map[string]*ssa.Function{}
 	for _, fn := range SrcFuncs(sp) {
@@ -1189,4 +1190,50 @@ func onNilErrorSide(b *ssa.BasicBlock, e ssa.Value) bool {
 		}
 	}
 	return false
+}
+
+// c19InvalidExit (R10): the shortcut "no value: give the zero result" is taken on the not-valid side of IsValid().
+func c19InvalidExit(p *Program, r *Report) {
+	sp := p.SSAPkg("core")
+	if sp == nil {
+		return
+	}
+	n := 0
+	for _, fn := range SrcFuncs(sp) {
+		k := 0
+		for _, b := range fn.Blocks {
+			iff, ok := b.Instrs[len(b.Instrs)-1].(*ssa.If)
+			if !ok {
+				continue
+			}
+			cond, neg := iff.Cond, false
+			if u, ok := cond.(*ssa.UnOp); ok && u.Op == token.NOT {
+				cond, neg = u.X, true
+			}
+			c, ok := cond.(*ssa.Call)
+			if !ok || reflectMethod(c) != "IsValid" {
+				continue
+			}
+			validSucc := b.Succs[0]
+			if neg {
+				validSucc = b.Succs[1]
+			}
+			// a block that only returns constants
+			trivial := false
+			if len(validSucc.Instrs) == 1 {
+				if ret, ok := validSucc.Instrs[0].(*ssa.Return); ok {
+					trivial = true
+					for _, res := range ret.Results {
+						if _, isC := res.(*ssa.Const); !isC {
+							trivial = false
+						}
+					}
+				}
+			}
+			n++
+			k++
+			r.Check(!trivial, "C19.R10", fmt.Sprintf("%s|IsValid test #%d", funcName(fn), k), p.Pos(instrPos(iff)), "the zero-result shortcut is on the invalid side", "a builtin returns its zero result at once for every VALID argument (the IsValid test is flipped)")
+		}
+	}
+	r.Floor("C19.R10", n, 3)
 }
